@@ -87,6 +87,27 @@ static void transform_case(uint64_t n, int fam, int set, unsigned rep) {
   for (uint64_t i = 0; i < 4 * n; i++) s[i] = (z[i] % Q120[i & 3] + y[i] % Q120[i & 3]) % Q120[i & 3];
   if (!congruent(n, x, s, &at, &pk)) viol("oracle", "linearity: n=%" PRIu64 " output %" PRIu64 " prime %d: ntt(x+y) != ntt(x)+ntt(y)", n, at, pk);
   cnt("linearity_checked", 1);
+  // the same with the sum formed by the library's own lazy adder on the original (unreduced) lanes, half of the lanes of both
+  // operands pushed to the top of the 64-bit range first: ntt(x (+) y) == ntt(x) + ntt(y)
+  {
+    uint64_t* xa = malloc(n * 32);
+    uint64_t* ya = malloc(n * 32);
+    uint64_t* sa = aligned_alloc(64, (n * 32 + 63) / 64 * 64);
+    for (uint64_t i = 0; i < 4 * n; i++) {
+      xa[i] = x0[i];
+      ya[i] = y0[i];
+      if (rng_u64(r) & 1) {  // same residue class, largest representative region: x + t*q just below 2^64
+        const uint64_t q = Q120[i & 3];
+        xa[i] = x0[i] % q + ((~0ull - q) / q - rng_u64(r) % 4096) * q;
+        ya[i] = y0[i] % q + ((~0ull - q) / q - rng_u64(r) % 4096) * q;
+      }
+    }
+    q120_add_bbb_simple(n, (q120b*)sa, (q120b*)xa, (q120b*)ya);
+    q120_ntt_bb_avx2(NTT[lg][set], (q120b*)sa);
+    if (!congruent(n, sa, s, &at, &pk)) viol("oracle", "linearity through q120_add_bbb_simple: n=%" PRIu64 " output %" PRIu64 " prime %d: ntt(x (+) y) != ntt(x) + ntt(y) (operand lanes up to 2^64 - 1)", n, at, pk);
+    cnt("linearity_checked", 1);
+    free(xa); free(ya); free(sa);
+  }
   // --- convolution theorem: intt(ntt(a) . ntt(b)) == a * b in Z_q[X]/(X^n+1)
   if (n <= 4096 || rep == 0) {
     uint64_t* prod = malloc(n * 32);
